@@ -14,6 +14,10 @@ use serde_json::Value;
 fn run_prop(id: &str, tier: Tier) -> Option<Report> {
     Some(match id {
         "C01" => props::c01::run(tier),
+        "C08" => props::c08::run(tier),
+        "C02" => props::c02::run(tier),
+        "C03" => props::c03::run(tier),
+        "C10" => props::c03::run_c10(tier),
         _ => return None,
     })
 }
@@ -21,6 +25,10 @@ fn run_prop(id: &str, tier: Tier) -> Option<Report> {
 fn replay_case(case: &Value) -> Option<(bool, String)> {
     Some(match case["kind"].as_str()? {
         "c01" => props::c01::replay(case),
+        "c08" => props::c08::replay(case),
+        "c02" => props::c02::replay(case),
+        "c03" | "c03alias" | "c03linear" => props::c03::replay(case),
+        "c10" => props::c03::replay_c10(case),
         _ => return None,
     })
 }
